@@ -272,6 +272,7 @@ flush inside close or from close itself after part of the record is on disk. -/
 
 inductive IOErr
   | enospc | eio | eacces | eperm | enoent | eintr | eagain | etimedout | ioerror
+  | enametoolong | enotdir | erofs | eloop
   -- exceptions that are NOT I/O errors but can surface at the same places: a second Ctrl+C under Python's
   -- default SIGINT handler, task cancellation, `sys.exit` in a callback, out of memory, a bug in the record source
   | keyboardInterrupt | cancelled | systemExit | memoryError | exception
